@@ -428,7 +428,10 @@ def probe_first_solution(rn, planner, seed):
 
 def judge_run(ck, rn, planner, seed, hname, k, K, ops, stats):
     env = HIST_ENV.get(hname, hname.split(":")[0][len("corpus-"):] if hname.startswith("corpus-") else "open")
+    t_run = time.time()
     script, out, rc, err = rn.run(planner, seed, ops, env=env)
+    stats.setdefault("wall", {})
+    stats["wall"][planner] = stats["wall"].get(planner, 0.0) + (time.time() - t_run)
     if out is None:
         # a process timeout is reported as "never returns" only if a second run with a longer timeout agrees
         # (LeakSanitizer symbolising thousands of leaked states on a loaded machine is slow, not a hang)
@@ -563,7 +566,7 @@ def control_draws(i, flt, j, tree):
     return draws, out_ev
 
 
-def translate_trace(ops, out, core="rrt"):
+def translate_trace(ops, out, core="rrt", info=None):
     """harness trace of geometric::RRT -> model script lines + the harness's own canonical lines.
     Returns (model_ops, impl_canon) or raises ValueError when the trace does not have the shape the model expects
     (that is itself a correspondence disagreement)."""
@@ -599,18 +602,33 @@ def translate_trace(ops, out, core="rrt"):
             elif e[0] == "F":
                 log.append("F%d" % canon(e[1:]) if e[1:] != "?" else "F?")
         logs = ",".join(log) if log else "-"
-        if op in ("setpd", "setsg"):
+        if op in ("setpd", "setsg", "mutpd"):
             t = ln.split()
             if op == "setpd":
                 pd_id += 1
                 model_ops.append("setpd %d 1 %s 2 %s %s" % (pd_id, d["svalid"], t[1], t[2]))
+                impl.append("%s log=%s" % (op, logs))
             else:
                 model_ops.append("setsg 1 %s 2 %s %s" % (d["svalid"], t[1], t[2]))
-            impl.append("%s log=%s" % (op, logs))
+                impl.append("setsg log=%s" % ("-" if op == "mutpd" else logs))
+                if op == "mutpd":
+                    # the new query was written into the SAME object, then setProblemDefinition(same pointer): in the model
+                    # that is setStartAndGoalStates followed by setProblemDefinition with the id the planner already holds
+                    model_ops.append("setpd %d 1 %s 2 %s %s" % (pd_id, d["svalid"], t[1], t[2]))
+                    impl.append("setpd log=%s" % logs)
+            if core in ("rrtg", "rrti"):
+                # goal state and threshold of the query: the model computes GoalRegion::isSatisfied itself
+                model_ops.append("goal %s 2 %s %s" % (t[5], t[3], t[4]))
+                impl.append("goal")
+                if info is not None and "lvs" in d:
+                    info["lvs"] = d["lvs"]
         elif op == "addstart":
             t = ln.split()
             model_ops.append("addstart %s 2 %s %s" % (d["svalid"], t[1], t[2]))
             impl.append("addstart log=-")
+        elif op == "setparam":
+            # range / goal_bias only change what the sampler and the steering produce, i.e. the oracle answers
+            continue
         elif op == "clearsol":
             model_ops.append("clearsol")
             impl.append("clearsol log=-")
@@ -640,7 +658,31 @@ def translate_trace(ops, out, core="rrt"):
                 if len(pre) < 2:
                     raise ValueError("op %d: fewer than two allocations before the loop" % i)
                 tree += pre[:-2]
-                if core == "rrt":
+                if core == "rrti":
+                    # intermediate-states branch: M<near>:<valid>:<dstate>; a valid motion is followed by the allocations of
+                    # getMotionStates (states[0] .. states[count+1]), the free of states[0] and ONE goal test on the last
+                    # state; states[1..] become tree motions.  sat / dist are NOT handed to the model.
+                    while j < len(flt):
+                        e = flt[j]
+                        if e[0] == "M":
+                            f = e[1:].split(":")
+                            if f[0] not in tree:
+                                raise ValueError("op %d: checkMotion from a state that is not in the tree" % i)
+                            draws.append({"near": tree.index(f[0]), "valid": f[1], "st": f[2:]})
+                            if f[1] == "1":
+                                a = []
+                                j += 1
+                                while j < len(flt) and flt[j][0] in "AF":
+                                    if flt[j][0] == "A":
+                                        a.append(flt[j][1:])
+                                    j += 1
+                                if j >= len(flt) or flt[j][0] != "G":
+                                    raise ValueError("op %d: valid motion not followed by allocations and a goal test" % i)
+                                tree += a[1:]
+                                INTERM_KINDS["states-per-motion:%d" % min(len(a), 9)] = INTERM_KINDS.get("states-per-motion:%d" % min(len(a), 9), 0) + 1
+                        j += 1
+                    ds = " ".join("%d %s %d %s" % (x["near"], x["valid"], len(x["st"]), " ".join(x["st"])) for x in draws)
+                elif core in ("rrt", "rrtg"):
                     cur = None
                     while j < len(flt):
                         e = flt[j]
@@ -660,7 +702,10 @@ def translate_trace(ops, out, core="rrt"):
                                 cur["sat"], cur["dist"] = g[1], g[2]
                                 j += 2
                         j += 1
-                    ds = " ".join("%d %s %s %s %d %s" % (x["near"], x["valid"], x["sat"], x["dist"], len(x["st"]), " ".join(x["st"])) for x in draws)
+                    if core == "rrtg":      # the goal test stays in the model
+                        ds = " ".join("%d %s %d %s" % (x["near"], x["valid"], len(x["st"]), " ".join(x["st"])) for x in draws)
+                    else:
+                        ds = " ".join("%d %s %s %s %d %s" % (x["near"], x["valid"], x["sat"], x["dist"], len(x["st"]), " ".join(x["st"])) for x in draws)
                 else:
                     draws, flt2 = control_draws(i, flt, j, tree)
                     ds = " ".join("%d %s %s %d %s" % (x["near"], x["ok"], x["tail"], len(x["ps"]),
@@ -736,7 +781,16 @@ def canon_model(lines):
 
 
 LOCK_CRASHES = {}
-LOCKSTEP_CORE = {"RRT": ("rrt", "proto core=rrt"), "cRRTi": ("crrt", "proto core=crrt " + F(0.02))}
+INTERM_KINDS = {}
+# RRT: the goal test (GoalRegion::isSatisfied over GoalState::distanceGoal) is computed by the model ("rrtg"); RRTi: the
+# intermediate-states core (getMotionStates / validSegmentCount / interpolate in the model; the header gets the space's
+# longestValidSegment_ from the harness's setpd line)
+LOCKSTEP_CORE = {"RRT": ("rrtg", "proto core=rrtg"), "RRTi": ("rrti", "proto core=rrti"), "cRRTi": ("crrt", "proto core=crrt " + F(0.02))}
+
+
+# (planner, harness seed, history, k): small fixed scripts run before the generated ones
+LOCK_CORPUS = [("RRTi", 5, "resume", 2), ("RRTi", 5, "clear-plain", 5), ("RRTi", 5, "mutpd", 13), ("RRTi", 77, "dup-start", 8),
+               ("RRT", 5, "mutpd", 13), ("RRT", 5, "mutpd-clear", 5), ("RRT", 77, "setparam", 8), ("cRRTi", 5, "mutpd", 13)]
 
 
 def _locked_report(ck, *a, **kw):
@@ -759,7 +813,10 @@ def lockstep(ck, rn, seed, hname, k, K, ops, planner="RRT"):
         ck.count("lockstep:crash-or-sanitizer:" + planner)
         return False
     try:
-        model_ops, impl = translate_trace(ops, out, core_name)
+        info = {}
+        model_ops, impl = translate_trace(ops, out, core_name, info)
+        if core_name == "rrti":
+            mheader = mheader + " " + info.get("lvs", "0")
     except ValueError as e:
         with REPORT_LOCK:
             ck.disagreements += 1
@@ -903,8 +960,10 @@ def run(ck):
                "non-trivial if at least one solve call was actually interrupted by the condition; distinct by (planner, seed, history, k)")
     ck.trusted += ["harness/proto.cpp: allocation-tracking RealVectorStateSpace, evaluation-counting termination condition, "
                    "path checks computed with the real SpaceInformation",
-                   "lock-step: the per-iteration oracle answers (nearest motion, motion validity, new state, goal test) are "
-                   "taken from the real run's trace; nearest-neighbour search, sampling and collision checking are not modelled",
+                   "lock-step: the per-iteration oracle answers (nearest motion, motion validity, new state; for control RRT also "
+                   "the goal test) are taken from the real run's trace; nearest-neighbour search, sampling and collision checking "
+                   "are not modelled; for geometric RRT / RRTi the goal test, validSegmentCount, getMotionStates and interpolate ARE "
+                   "computed by the model (RealVectorStateSpace arithmetic, compared bit for bit through status, top key and path)",
                    "planners other than geometric::RRT are explored (spec oracle on real outputs), not proved"]
     ck.assumptions += ["the termination condition is the harness's evaluation counter (true from evaluation k+1 of each solve call on)",
                        "start/goal changes happen through a new ProblemDefinition, setStartAndGoalStates on the same one after clear(), "
@@ -921,9 +980,12 @@ def run(ck):
     REPORTED.clear()
     LOCK_CRASHES.clear()
     CTL_DRAW_KINDS.clear()
+    INTERM_KINDS.clear()
     stats = {"after": {}, "status": collections.Counter(), "motion-invalid": {}}
     hs = histories(ck.tier)
     workers = min(16, (os.cpu_count() or 4))
+    if os.environ.get("C03_WORKERS", "").isdigit():      # development runs on a shared machine
+        workers = max(1, int(os.environ["C03_WORKERS"]))
     bad = 0
 
     # corpus first: "<planner> <seed> | op ; op ; ..." lines
@@ -983,6 +1045,7 @@ def run(ck):
     with ThreadPoolExecutor(workers) as ex:
         results = list(ex.map(lambda j: judge_run(ck, rn, j[0], j[1], j[2], j[3], j[4], j[5], stats), jobs))
     ck.log("runs done in %.1fs" % (time.time() - t0))
+    ck.log("worker seconds per planner (top 8): %s" % ", ".join("%s %.0f" % (p_, w_) for p_, w_ in sorted(stats.get("wall", {}).items(), key=lambda x: -x[1])[:8]))
     for res in results:
         ck.case((res["planner"], res["seed"], res["history"], res["k"]), res["nontrivial"])
         ck.count("history:" + res["history"])
@@ -1004,16 +1067,28 @@ def run(ck):
     if ck.lean_ok:
         r = ck.rng.fork("lockstep")
         ljobs = []
-        lhs = {n: f for n, f in hs.items() if n not in ("mutpd", "mutpd-clear", "clearsol-sealed", "multigoal", "multigoal-blocks", "free-exact", "free-exact-dyadic", "ptc-kinds", "setparam")}
+        lhs = {n: f for n, f in hs.items() if n not in ("clearsol-sealed", "multigoal", "multigoal-blocks", "free-exact", "free-exact-dyadic", "ptc-kinds")}
         for planner in LOCKSTEP_CORE:
             lseeds = [seeds[planner], r.below(1000)] if quick else [seeds[planner]] + [r.below(1000) for _ in range(2)]
             for s in lseeds:
                 kk = probe_first_solution(rn, planner, s)[0] or 200
                 kk = min(kk, 400)
                 ks = sorted(set(fib_upto(kk) + [kk, kk + 1, kk + 2])) if quick else list(range(0, min(kk, 60) + 21))
-                for k in ks:
-                    for hn in lhs:
+                lrest = [n for n in lhs if n not in ("resume", "clear-plain")]
+                for j, k in enumerate(ks):
+                    if quick:
+                        # the two basic histories at every k, seven of the others rotating (every history is seen by every
+                        # planner and seed; the thorough tier runs all of them at every k)
+                        pick = ["resume", "clear-plain"] + [lrest[(j * 7 + i_ + (s % 7)) % len(lrest)] for i_ in range(7)]
+                    else:
+                        pick = list(lhs)
+                    for hn in pick:
                         ljobs.append((s, hn, k, kk + 40, lhs[hn](k, kk + 40), planner))
+        # fixed lock-step scripts first (independent of VERIF_SEED): the situations the round-10 mutants were caught in
+        fixed = []
+        for planner, s_, hn, k in LOCK_CORPUS:
+            fixed.append((s_, hn, k, 240, hs[hn](k, 240), planner))
+        ljobs = fixed + ljobs
         with ThreadPoolExecutor(workers) as ex:
             oks = list(ex.map(lambda j: lockstep(ck, rn, j[0], j[1], j[2], j[3], j[4], planner=j[5]), ljobs))
         pjobs = []
@@ -1028,6 +1103,9 @@ def run(ck):
         ck.extra_cov["lockstep_histories"] = len(ljobs)
         ck.extra_cov["lockstep_agree"] = sum(1 for o in oks if o)
         ck.extra_cov["lockstep_control_draw_kinds"] = dict(CTL_DRAW_KINDS)
+        ck.extra_cov["lockstep_intermediate_states_per_valid_motion"] = dict(sorted(INTERM_KINDS.items()))
+        for kd, n in list(CTL_DRAW_KINDS.items()) + list(INTERM_KINDS.items()):
+            ck.count("lockstep:draw-kind:" + kd, n)
     return 0
 
 
@@ -1081,8 +1159,16 @@ MANIFEST = {
             "allocations - for every interruption index k and every history. "
             "Second core: control::RRT with intermediate states (every propagated state adopted by a motion or freed exactly "
             "once, alloc_balanced_control); third core: PRM's query bookkeeping (clearQuery_forgets_query_keeps_roadmap, "
-            "setProblemDefinition_rereads_query also for the pointer already held). "
-            "The models are tied to geometric::RRT, control::RRT(intermediate states) and PRM/PRMstar by lock-step runs "
+            "setProblemDefinition_rereads_query also for the pointer already held); fourth core (round 10): geometric::RRT "
+            "with intermediate states - SpaceInformation::getMotionStates (both branches), validSegmentCount and "
+            "RealVectorStateSpace::interpolate are computed by the model, states[0] freed and the rest adopted by chained "
+            "motions (rrti_core_lawful, alloc_balanced_intermediate); the goal test GoalRegion::isSatisfied over "
+            "GoalState::distanceGoal is computed by the model for RRT and RRTi instead of being replayed "
+            "(exact_solution_reaches_goal); solve_evaluations_bounded (at most k+1 evaluations, exactly k+1 on TIMEOUT / "
+            "APPROXIMATE), resume_continues_search (the tree a resumed solve found is a prefix of the tree it returns) and "
+            "tree_core_paths_start_at_start / never-dangling lastGoalMotion_ for all three tree cores. "
+            "The models are tied to geometric::RRT (both intermediate-state modes), control::RRT(intermediate states) and "
+            "PRM/PRMstar by lock-step runs "
             "(per-iteration oracle answers taken from the real run's trace; milestone counts for PRM). All other planners "
             "are exploration-backed only: 41 geometric planners + variants (RRT/RRTConnect with intermediate states, BIT*/ABIT* "
             "with approximate-solution tracking), 4 multilevel planners on a one-level sequence, 6 control planners; worlds: "
